@@ -261,12 +261,27 @@ func main() {
 		}
 		fmt.Fprintf(&b, "/-- callees of %s in source order (logging excluded) -/\ndef %s : List String :=\n  %s\n", fname, lean, leanList(callOrder(fn)))
 	}
+	orderOnly := func(f *ast.File, fname, lean string, keep map[string]bool) {
+		fn := funcByName(f, fname)
+		if fn == nil {
+			die("function %s not found", fname)
+		}
+		var ks []string
+		for _, c := range callOrder(fn) {
+			if keep[c] {
+				ks = append(ks, c)
+			}
+		}
+		fmt.Fprintf(&b, "/-- decision-relevant callees of %s in source order -/\ndef %s : List String :=\n  %s\n", fname, lean, leanList(ks))
+	}
 	order(vrfGo, "ECVRFVerify", "verifyCalls")
 	order(vrfGo, "ECVRFProve", "proveCalls")
 	order(vrfGo, "decodeProof", "decodeProofCalls")
 	order(vrfGo, "stringToPoint", "stringToPointCalls")
 	order(vrfGo, "hashToCurve", "hashToCurveCalls")
-	order(stakeGo, "validateProve", "validateProveCalls")
+	// validateProve logs a lot; keep only the calls that decide (ok, qn)
+	orderOnly(stakeGo, "validateProve", "validateProveCalls", map[string]bool{"tryZeroPadding": true, "calcVrfValueRatio": true,
+		"common.GetRewardBlocks": true, "calcStakeRatio": true, "vrfValueRatio.Cmp": true, "calQn": true})
 	order(stakeGo, "calQn", "calQnCalls")
 	order(stakeGo, "calcStakeRatio", "calcStakeRatioCalls")
 	order(stakeGo, "verifyBlockVRF", "verifyBlockVRFCalls")
